@@ -61,6 +61,31 @@ inductive Reach (P : Prog) : Inst → Prop
       Reach P ⟨c, θ, []⟩
   | method {t N θ m} : Reach P ⟨t, N, θ⟩ → m ∈ (P.defs t).methods → Reach P ⟨m, N, θ⟩
 
+/-! ### representation of values of type-parameter type inside an instance -/
+
+/-- how a Go value of a type sits in an interface value at run time (compiler/statements.go:146-160, type switch clause
+    binding; expressions.go type assertions): a non-interface type is boxed and the clause variable must be bound to the
+    payload `.$val`; an interface type is held as it is.  `ia b` says that the atom `b` is an interface type.
+    A RAW type parameter has the constraint interface as its underlying type: deciding on it, instead of on the type
+    argument, answers "interface". -/
+def Ty.unwraps (ia : Nat → Bool) : Ty → Bool
+  | .basic b => !ia b
+  | .own _ => false
+  | .nest _ => false
+  | .free _ => false
+  | _ => true
+
+/-- the term is a bare type parameter -/
+def Ty.isParam : Ty → Bool
+  | .own _ => true
+  | .nest _ => true
+  | .free _ => true
+  | _ => false
+
+/-- the decision the per-instance translation must take for a clause `case t:` in the instance `(N, θ)`:
+    on the substituted type -/
+def unwrapIn (ia : Nat → Bool) (N θ : List Ty) (t : Ty) : Bool := (t.substS N θ).unwraps ia
+
 /-! ### hypotheses under which the collector is exact -/
 
 /-- no type declared inside a generic function occurs inside a type term -/
